@@ -672,8 +672,17 @@ Definition extra_ok (acts : list sact) (extra : list string) : bool :=
   | [Shift _ "zone" _ _] => list_eqb extra ["zonemap"]
   | [Shift _ "pzone" _ _] => list_eqb extra ["pzonemap"]
   | [Shift _ "dataset" _ true] => list_eqb extra ["unshare_ptset"]
+  | [Shift _ "zconn" _ _] => list_eqb extra [] || list_eqb extra ["active_zconn"]   (* with / without the renumbering of the
+                                                                                        current container (zone->active_zconn) *)
   | _ => list_eqb extra []
   end.
+(* does the arm that deletes a ZoneGridConnectivity_t renumber zone->active_zconn? *)
+Definition zconn_arm_keeps_current (dt : list dblock) : bool :=
+  existsb (fun b => match b with
+                    | DBlock _ _ rows => existsb (fun r => match r with
+                                                           | DRow _ [Shift _ "zconn" _ _] extra => list_eqb extra ["active_zconn"]
+                                                           | _ => false end) rows
+                    | DUnparsedBlock _ => false end) dt.
 
 Definition drow_ok (ss : Goto.structs_t) (fs : list (string * string)) (pty : string) (r : drow) : bool :=
   match r with
@@ -870,6 +879,13 @@ Definition copy_keeps_links (g : bexp) (else_recurses : bool) (callers : list st
   (* a child that is no link is never turned into one *)
   forallb (fun sf => forallb (fun fo => negb (beval (copy_env false sf fo) g)) [true; false]) [true; false] &&
   list_eqb callers expected_copy_callers.
+
+(* cgio_compute_data_size (cgns_io.c): the bytes per element the node copy of compress-on-close (cgio_copy_node) allocates and
+   moves, per data type: one byte for B1 / C1 (the function returns CG_ERROR, which is 1), 4 / 8 for I, U, R, twice that for X *)
+Definition expected_data_size_rows : list string :=
+  ["BC: CG_ERROR"; "IU4: sizeof ( int )"; "IU8: sizeof ( cglong_t )"; "R4: sizeof ( float )"; "R8: sizeof ( double )";
+   "X4: ( 2 * sizeof ( float ) )"; "X8: ( 2 * sizeof ( double ) )"; "otherwise: CG_OK"].
+Definition data_sizes_ok (rows : list string) : bool := list_eqb rows expected_data_size_rows.
 
 (* diagnostics for the report *)
 Definition bad_dblocks (ss : Goto.structs_t) (fs : list (string * string)) (nd : list ndrow) (gt : list Goto.brow)
